@@ -2311,7 +2311,7 @@ func (e *lfEngine) doBinOp(fr *lfFrame, st *lfState, x *ssa.BinOp) {
 			// low mask: x & (2^k − 1) = r with x = 2^k·q + r, 0 ≤ r < 2^k
 			q := linSym(e.newSym("hi(" + name + ")"))
 			rm := linSym(e.newSym("lo(" + name + ")"))
-			sum := q.scale(m + 1).add(rm, 1)
+			sum := q.scale(m+1).add(rm, 1)
 			st.cons = append(st.cons, geq(q, linConst(0)), geq(rm, linConst(0)), leq(rm, linConst(m)), geq(other, sum), leq(other, sum))
 			fr.env[x] = vInt{E: rm}
 			return
